@@ -181,6 +181,10 @@ pub struct Layout {
     pub xor_key: Option<Bytes>,
     #[serde(default, skip_serializing_if = "Vec::is_empty")]
     pub extra_files: Vec<ExtraFile>,
+    /// the four bytes in front of each size prefix (never read by the program): 0 = the coin's magic,
+    /// 1 = zeros, 2 = another network's magic, 3 = per-block garbage
+    #[serde(default, skip_serializing_if = "is_zero_u8")]
+    pub magic_mode: u8,
 }
 
 #[derive(Clone, Serialize, Deserialize, PartialEq, Eq, Debug, Hash)]
@@ -221,6 +225,14 @@ pub struct IndexOpts {
     /// formerly ASSUMED_VALID bit = 256); the validity level and HAVE_DATA|HAVE_UNDO stay as they are
     #[serde(default, skip_serializing_if = "is_zero_u64")]
     pub active_extra_status: u64,
+    /// status bits cleared in active-chain records above height 0 (only HAVE_UNDO = 16 and validity-level
+    /// bits make sense: a record without HAVE_DATA is not an active block for the program)
+    #[serde(default, skip_serializing_if = "is_zero_u64")]
+    pub active_clear_status: u64,
+    /// the nTx field of block records (ignored by the program): 0 = true count, 1 = zero, 2 = count + 1,
+    /// 3 = garbage derived from the hash
+    #[serde(default, skip_serializing_if = "is_zero_u8")]
+    pub ntx_mode: u8,
 }
 fn is_zero_u64(x: &u64) -> bool {
     *x == 0
